@@ -388,6 +388,10 @@ pub struct World {
     /// vAMM addresses registered with the insurance fund according to the harness's own record of
     /// the owner's successful AddVamm / RemoveVamm calls (not the fund's IsVamm answer)
     pub registered: std::collections::BTreeSet<String>,
+    /// (toll, spread) ratios of each vAMM according to the harness's own record of what the
+    /// deployment was instantiated with and of the owner's successful UpdateConfig calls (the fee
+    /// oracles use this, not the vAMM's Config query)
+    pub fee_ledger: std::collections::BTreeMap<String, (Uint128, Uint128)>,
 }
 
 pub fn addr(s: &str) -> Addr {
@@ -569,8 +573,9 @@ impl World {
                 }
             }
         }
-        let mut w = World { app, cfg, d, engine, vamms, ins, feepool, feed, token, step_no: 0, attach: None, last_spot: vec![], registered: Default::default() };
+        let mut w = World { app, cfg, d, engine, vamms, ins, feepool, feed, token, step_no: 0, attach: None, last_spot: vec![], registered: Default::default(), fee_ledger: Default::default() };
         w.registered = w.vamms.iter().map(|a| a.to_string()).collect();
+        w.fee_ledger = w.vamms.iter().map(|a| (a.to_string(), (w.cfg.toll, w.cfg.spread))).collect();
         let now = w.app.block_info().time.seconds();
         let p = w.cfg.oracle_price;
         let t = w.set_oracle(p, now);
@@ -693,7 +698,30 @@ impl World {
         let v = self.vamms[vi].clone();
         let t = self.exec(who, &v, msg, &[]);
         self.logtx("vamm_exec", &t);
+        if t.ok {
+            if let VammExec::UpdateConfig { toll_ratio, spread_ratio, .. } = msg {
+                if let Some(e) = self.fee_ledger.get_mut(&v.to_string()) {
+                    if let Some(x) = toll_ratio {
+                        e.0 = *x;
+                    }
+                    if let Some(x) = spread_ratio {
+                        e.1 = *x;
+                    }
+                }
+            }
+        }
         t
+    }
+    /// (toll, spread) of vAMM `vi` by the harness's ledger (the Config query for a vAMM that was
+    /// not deployed by `World::new`)
+    pub fn fees_of(&self, vi: usize) -> (Uint128, Uint128) {
+        match self.fee_ledger.get(&self.vamms[vi].to_string()) {
+            Some(e) => *e,
+            None => {
+                let c = self.vamm_config(vi);
+                (c.toll_ratio, c.spread_ratio)
+            }
+        }
     }
     pub fn ins_exec(&mut self, who: &str, msg: &InsExec) -> Tx {
         let a = self.ins.clone();
